@@ -2,6 +2,9 @@ from checks import concfam
 GUARDS = {"BlockConservation.dup", "BlockConservation.lost", "ListsStayInPage", "QuiescentClean", "NoBlowUp", "WalkCount", "Invariant.Inv"}
 def run(tier, seed):
     jobs = [
+        {"prog": "page-huge", "strategy": "random", "runs": (40, 600), "args": ["--snap", "3", "--spurious", "1", "--rate", "3"]},
+        {"prog": "page-huge", "strategy": "pct", "runs": (30, 400), "args": ["--snap", "3"]},
+        {"prog": "page", "strategy": "random", "runs": (40, 600), "args": ["--snap", "3", "--size", "600000", "1048576", "--spurious", "1"]},
         {"prog": "page", "strategy": "random", "runs": (250, 3000), "args": ["--snap", "3", "--spurious", "2", "--rate", "3"]},
         {"prog": "page", "strategy": "pct", "runs": (150, 2000), "args": ["--snap", "3", "--spurious", "1"]},
         {"prog": "page-collect", "strategy": "random", "runs": (150, 2000), "args": ["--snap", "3", "--spurious", "2", "--rate", "2"]},
